@@ -46,6 +46,9 @@ pub enum Cause {
     /// group 2: chunk j >= 1 corrupted / the file cut inside chunk j
     LaterChunkCorrupt(u8),
     LaterChunkTruncated(u8),
+    /// bytes appended after the final chunk (the file's last chunk is number j): exit 1; the output
+    /// holds the authenticated chunks before the final one, or all of them
+    TrailingData(u8),
 }
 
 pub const PAIRS: &[(Cmd, Cause)] = &[
@@ -83,6 +86,10 @@ pub const PAIRS: &[(Cmd, Cause)] = &[
     (Cmd::Decrypt, Cause::LaterChunkCorrupt(2)),
     (Cmd::Decrypt, Cause::LaterChunkTruncated(1)),
     (Cmd::Decrypt, Cause::LaterChunkTruncated(2)),
+    (Cmd::Decrypt, Cause::TrailingData(0)),
+    (Cmd::Decrypt, Cause::TrailingData(2)),
+    (Cmd::PassDecrypt, Cause::TrailingData(0)),
+    (Cmd::PassDecrypt, Cause::TrailingData(2)),
     (Cmd::PassEncrypt, Cause::BadArgs),
     (Cmd::PassEncrypt, Cause::MissingInput),
     (Cmd::PassEncrypt, Cause::EnvPassUnset),
@@ -155,7 +162,7 @@ impl Family for B2 {
         let pubs: Vec<[u8; 32]> = w.sks.iter().map(rp::x25519_base).collect();
         let mut r = Rng::new(s.seed ^ 0xB2);
         let sb = Sandbox::new("b2");
-        let later = matches!(s.cause, Cause::LaterChunkCorrupt(_) | Cause::LaterChunkTruncated(_));
+        let later = matches!(s.cause, Cause::LaterChunkCorrupt(_) | Cause::LaterChunkTruncated(_) | Cause::TrailingData(2));
         // plaintext: three chunks when a later chunk must fail, small otherwise
         let pt = if later { r.bytes(2 * CHUNK + 1000) } else { { let n = 200 + r.usize_below(500); r.bytes(n) } };
         let (e, payload) = (r.arr32(), r.arr32());
@@ -175,6 +182,7 @@ impl Family for B2 {
         };
         let hl = if s.cmd == Cmd::Decrypt { 132 } else { 36 };
         let mut expected_prefix: Option<Vec<u8>> = None;
+        let mut alt_prefix: Option<Vec<u8>> = None;
         match s.cause {
             Cause::WrongMagic => input[r.usize_below(4)] ^= 1 << r.below(8),
             Cause::WrongMode => input = if s.cmd == Cmd::Decrypt { pass_file(&pt) } else { key_file(&pt) },
@@ -201,6 +209,18 @@ impl Family for B2 {
                 let off = start + 8 + r.usize_below(rec_len - 8);
                 input[off] ^= 1 << r.below(8);
                 expected_prefix = Some(pt[..j as usize * CHUNK].to_vec());
+            }
+            Cause::TrailingData(j) => {
+                let extra = 1 + r.usize_below(20);
+                input.extend_from_slice(&crate::rng::fill(extra, s.seed ^ 0x7a11));
+                // everything is authentic; whether the final chunk is released before the trailing
+                // bytes are noticed is the implementation's business
+                if j == 0 {
+                    alt_prefix = Some(pt.clone());
+                } else {
+                    expected_prefix = Some(pt[..j as usize * CHUNK].to_vec());
+                    alt_prefix = Some(pt.clone());
+                }
             }
             Cause::LaterChunkTruncated(j) => {
                 let start = hl + j as usize * (CHUNK + 32);
@@ -229,7 +249,11 @@ impl Family for B2 {
             };
         }
         let out_name = "output.bin";
-        let prior = { let n = 64 + r.usize_below(100); r.bytes(n) };
+        // sometimes longer than anything this run will write: a missing truncation then shows
+        let prior = {
+            let n = if s.variant % 2 == 0 { 64 + r.usize_below(100) } else { 150_000 + r.usize_below(100_000) };
+            r.bytes(n)
+        };
         if s.cause != Cause::MissingInput {
             sb.write("input.bin", &input);
         }
@@ -321,6 +345,14 @@ impl Family for B2 {
             out.violations.push(viol("C13", "panicked", format!("{}: {}", what, stderr.chars().take(300).collect::<String>())));
         }
         match &expected_prefix {
+            None if alt_prefix.is_some() => {
+                // single-chunk file with trailing data: untouched, or exactly the whole plaintext
+                let now = sb.read(out_name);
+                let untouched = before == after;
+                if !(untouched || now.as_deref() == alt_prefix.as_deref()) {
+                    out.violations.push(viol("C13", "trailing_data_wrong_output", format!("{}: output path holds {:?} bytes: neither untouched nor the authenticated plaintext", what, now.map(|v| v.len()))));
+                }
+            }
             None => {
                 // group 1: nothing authenticated exists: the sandbox is byte-identical to before
                 if before != after {
@@ -331,7 +363,7 @@ impl Family for B2 {
             Some(prefix) => {
                 // group 2: exactly the authenticated prefix
                 let now = sb.read(out_name).unwrap_or_default();
-                if now != *prefix {
+                if now != *prefix && Some(&now) != alt_prefix.as_ref() {
                     out.violations.push(viol("C13", "later_failure_wrong_prefix", format!("{}: output holds {} bytes, the authenticated prefix has {}", what, now.len(), prefix.len())));
                 }
             }
